@@ -1,17 +1,21 @@
-import FsDb.Proofs.Refine
+import FsDb.Proofs.Reopen
 import FsDb.Proofs.SpecInv
 /-!
 # C05 — Reopening preserves the committed state and later writes keep winning
 
-PARTIAL.  Proved: on the specification a reopen (in the same or in a fresh process) keeps the whole
-committed history, drops the open transactions and keeps the specification invariant (so every
-later write gets a stamp above everything committed: it wins now and after every later reopen);
-on the concrete model `Load` picks per key the record with the highest sequence number and leaves
-the process counter at or above every surviving sequence number (`C05_counter_covers`) — which is
+Proved: on the specification a reopen (in the same or in a fresh process) keeps the whole committed
+history, drops the open transactions and keeps the specification invariant (so every later write
+gets a stamp above everything committed: it wins now and after every later reopen).  On the
+concrete model: the record invariant `RecInv` (every live version has its Badger record; every
+record tagged main is dominated by a current main version of its key) holds through every
+operation, so `Load` keeps, for every key, exactly the newest committed version
+(`C05_load_keeps_newest`), `Close`+`Open` refines the specification's `reopen`
+(`C05_reopen_refines`), and the refinement theorem extends to EVERY history with reopenings at any
+positions, in the same process or a fresh one (`C05_refinement_with_reopen`).  `Load` leaves the
+process counter at or above every surviving sequence number (`C05_counter_covers`) — which is
 exactly what the pin's `CompareAndSwap(0, s)` did not guarantee when another database had been
-opened before (`C05_cas_witness`).  Not yet a theorem: that the surviving record of every key IS the
-newest committed version (needs the record invariant through all operations); it is decided by the
-multi-database / multi-process correspondence run.
+opened before (`C05_cas_witness`).  Several databases in one process share only the counter; that
+part is exercised by the multi-database / multi-process correspondence run.
 -/
 namespace FsDb.C05
 open FsDb Spec
@@ -83,6 +87,40 @@ theorem C05_counter_covers (c : Sys) (f : Bool) (k : Key) (v : Ver) (hk : k ∈ 
           exact Nat.le_trans (Nat.le_max_right _ _) (mono t _)
         · exact ih _ h
     exact Nat.le_trans (hmax _ 1 hkeep) (Nat.le_max_right _ _)
+
+/-- `Load` keeps, for every key, exactly the newest committed version -- in every state reachable
+    by any history (reopenings included), whatever superseded, rolled-back or tombstone records are
+    still lying in Badger -/
+theorem C05_load_keeps_newest {c : Sys} {s : State} (h : R c s) (ri : RecInv c) (f : Bool) (k : Key) :
+    (c.reopen f).1.main k = (Sys.latest (c.main k)).toList := reopen_main h.inv ri f k
+
+/-- `Close`+`Open` refines the specification's `reopen`; the record invariant survives it -/
+theorem C05_reopen_refines {c : Sys} {s : State} (h : R c s) (ri : RecInv c) (f : Bool) :
+    R (c.reopen f).1 (Spec.reopen s f).1 ∧ RecInv (c.reopen f).1 :=
+  ⟨R.reopen h ri f, RecInv.reopen h.inv ri f⟩
+
+/-- for EVERY history of Begin/Set/Delete/Get/GetKeys/Commit/Rollback/gc/drain with `Close`+`Open`
+    at any positions, in the same process or a fresh one, the concrete model (version lists, Badger
+    records, `Load`) answers what the specification answers -/
+theorem C05_refinement_with_reopen (ops : List Op) (hops : ∀ op ∈ ops, op.total = true) :
+    (({} : Sys).run ops).2 = (Spec.run {} ops).2 := Refine.run_all_init ops hops
+
+/-- … hence durability on the concrete model: in every reachable state, what an autocommit caller
+    reads is the same immediately before `Close` and immediately after `Open` (same process or a
+    fresh one) -/
+theorem C05_durable_concrete {c : Sys} {s : State} (h : R c s) (ri : RecInv c) (f : Bool) (k : Key) :
+    (c.reopen f).1.get mainTx k = c.get mainTx k ∧ (c.reopen f).1.getKeys mainTx = c.getKeys mainTx := by
+  have h' := R.reopen h ri f
+  exact ⟨by rw [get_eq h', get_eq h, (C05_reopen_reads s f k).1], by rw [getKeys_eq h', getKeys_eq h, (C05_reopen_reads s f k).2]⟩
+
+/-- non-vacuity: a history with a conflict, a rollback, tombstones, collector passes and two
+    reopenings (one in a fresh process) -/
+example :
+    (Spec.run {} [.set 0 "a" 1, .begin 1 .ser, .set 1 "a" 2, .set 0 "a" 3, .del 0 "b", .commit 1, .gc, .reopen false,
+      .get 0 "a", .set 0 "a" 4, .begin 2 .rc, .set 2 "b" 5, .reopen true, .get 0 "a", .get 0 "b", .set 0 "b" 6, .reopen true,
+      .get 0 "b", .keys 0]).2
+    = [.ok, .ok, .ok, .ok, .ok, .err .txSerialization, .ok, .ok, .val 3, .ok, .ok, .ok, .ok, .val 4, .err .notFound,
+       .ok, .ok, .val 6, .keys ["a", "b"]] := by decide
 
 /-- the pin's counter rule: `Set` only if the counter is still zero -/
 def casCounter (counter0 maxSeq : Nat) : Nat := if counter0 = 0 then maxSeq else counter0
